@@ -24,6 +24,7 @@ pub struct Pre {
     pub conn_handles: Vec<i32>,
     /// dial ids owned (and still pending) per request
     pub pending_dials_of_req: Vec<Vec<usize>>,
+    pub dial_dropped: Vec<bool>,
 }
 
 pub fn capture_pre(sim: &Sim) -> Pre {
@@ -39,6 +40,7 @@ pub fn capture_pre(sim: &Sim) -> Pre {
         handed: sim.reqs.iter().map(|r| r.handoff.is_some()).collect(),
         conn_open: w.conns.iter().map(|c| c.open).collect(),
         conn_handles: w.conns.iter().map(|c| c.handles).collect(),
+        dial_dropped: w.dials.iter().map(|d| d.dropped).collect(),
         pending_dials_of_req: (0..sim.reqs.len())
             .map(|r| {
                 w.dials
@@ -209,6 +211,15 @@ pub fn check_step(pre: &Pre, e: Ev, rep: &StepReport, sim: &Sim) -> Vec<Viol> {
                 let room = snap.max_idle_per_host > 0 && snap.tokens.iter().all(|tk| tk.idle.len() < snap.max_idle_per_host || tk.idle.iter().any(|i| i.conn.parse::<usize>().ok() == Some(*c)));
                 if cs.open && !cs.busy && !cs.upgraded && cs.handles <= 0 && room {
                     out.push(v("C04", "released-connection-dropped", format!("open, ready c{c} was released by a finished request but the pool dropped it instead of keeping it")));
+                }
+            }
+        }
+        // ---- C14 (2): with continue_after_preemption an attempt that was started is never thrown away
+        if cfg.continue_after_preemption {
+            for (di, d) in w.dials.iter().enumerate() {
+                let was = pre.dial_dropped.get(di).copied().unwrap_or(false);
+                if d.dropped && !was && dial_pending(d.stage) {
+                    out.push(v("C14", "attempt-dropped", format!("connection attempt d{di} (stage {:?}) was dropped although continue_after_preemption=true requires abandoned attempts to complete in the background", d.stage)));
                 }
             }
         }
